@@ -372,6 +372,7 @@ def run_sharded(binary, total, seed, tier, args=(), env=None, shards=None, timeo
         local = ShardResult()
         restarts = 0
         attempt = 0
+        hangs = 0
         while lo < hi:
             attempt += 1
             outp = os.path.join(sd, 's%d_%d.jsonl' % (si, attempt))
@@ -393,6 +394,11 @@ def run_sharded(binary, total, seed, tier, args=(), env=None, shards=None, timeo
             if r['verdict'] in ('deadlock', 'livelock'):
                 local.violations.append(dict(key='hang(%s)' % r['verdict'], detail=r['stacks'][-3000:], case=case,
                                              desc=desc, binary=binary, args=base_args))
+                hangs += 1
+                if hangs >= 2:
+                    # a tree on which every case hangs must not cost stall-time x cases
+                    local.counters['cases_skipped_after_hangs'] = local.counters.get('cases_skipped_after_hangs', 0) + max(0, hi - case - 1)
+                    break
             elif r['verdict'] == 'timeout':
                 local.inconclusive.append(dict(case=case, why='wall-clock cap %ds' % timeout))
             else:
